@@ -298,8 +298,8 @@ PROPS["C04"] = dict(
 PROPS["C16"] = dict(
     level="proof",
     runs=[dict(bin="c16", profiles=["dev", "release"])],
-    quick=dict(n=600, shards=8, args=["--big", "100000"]),
-    thorough=dict(n=3000, shards=16, args=["--big", "1000000"], run_timeout=3600, coq_case_timeout=3000),
+    quick=dict(n=720, shards=8, args=["--big", "100000"]),
+    thorough=dict(n=3600, shards=16, args=["--big", "1000000"], run_timeout=3600, coq_case_timeout=3000),
     trusted_base=[
         "frame-counting model coq/C16/Model.v (cost monad ret/bind/call: a Rust loop adds no frame, a self-call adds one) of the five matching iterators of sophia_inmem, nt::quoted_string, exec::graph/graph_rec with the FilterMap/Chain/Flatten iterators it builds, engine::mark_list_node/populate_list/convert_rdf_object, _pretty::find_subject, Term::constituents/atoms (hand-written; original recursive and repaired loop shapes side by side)",
         "the theorems count frames of the model: the optimiser (LLVM turns the iterators' and quoted_string's tail self-calls into jumps in release builds) and the size of a frame are outside them; they are observed by the oracle: subprocess of the harness on a 2 MiB thread in dev and release, addresses seen by caller-supplied callbacks (closure matchers, io::Write sink, probing Dataset), mincore(2) high-water mark of the fresh thread stack (Linux, 4 KiB pages)",
